@@ -56,3 +56,22 @@ func verifCommitOrder(wvs *worldVirtualState) []string {
 	ids = append(ids, rel...)
 	return append(ids, rest...)
 }
+
+// verifSortedIDs replaces the other `range wvs.accountStates` loops
+// (GetSnapshot, Reset, applyLockRequests). On the unchanged code their bodies
+// perform no synchronisation, so their order is immaterial; the loops are
+// still given a fixed order inside an exploration so that an edit which adds a
+// lock operation to one of them (found by a seeded change: a "fast path" in
+// applyLockRequests calling a mutex-protected isCommitted()) cannot make the
+// stateless search diverge instead of reporting the violation. Outside an
+// exploration the natural map order is kept.
+func verifSortedIDs(wvs *worldVirtualState) []string {
+	ids := make([]string, 0, len(wvs.accountStates))
+	for id := range wvs.accountStates {
+		ids = append(ids, id)
+	}
+	if explore.Active() {
+		sort.Strings(ids)
+	}
+	return ids
+}
